@@ -226,6 +226,7 @@ def finding_matches(kf, prop, unit, pr):
     if 'desc' in m and m['desc'] not in pr['desc']: return False
     if 'fn' in m and m['fn'] != (pr.get('fn') or ''): return False
     if 'id_prefix' in m and not (pr.get('id') or '').startswith(m['id_prefix']): return False
+    if 'clause' in m and m['clause'] not in (src_line(pr.get('file'), pr.get('line')) if pr.get('file') and pr.get('line') else ''): return False
     return True
 
 def main():
